@@ -171,13 +171,15 @@ Nbhd(b, i) ==
 
 \* positions where an exact tie (lenient traces, standard deviations) leaves
 \* the flag open: two executions may legitimately resolve it differently
-TiePos(c) ==
+TiePos(c, len) ==
     LET r0 == Rule(c, FALSE)  r1 == Rule(c, TRUE) IN
-    IF r0.ok /\ r1.ok THEN { i \in 1..Len(r0.flags) : r0.flags[i] # r1.flags[i] } ELSE {}
+    IF (len \/ AlwaysTie(c)) /\ r0.ok /\ r1.ok
+    THEN { i \in 1..Len(r0.flags) : r0.flags[i] # r1.flags[i] }
+    ELSE {}          \* exact data: a tie is decided by the rule (equality does not flag), nothing is open
 
-RelHolds(r, b, c, FB, FC) ==
+RelHolds(r, b, c, FB, FC, len) ==
     LET n == Len(FB)
-        open == TiePos(b) \cup TiePos(c)
+        open == TiePos(b, len) \cup TiePos(c, len)
         Firm(S) == S \ open
     IN
     /\ Len(FC) = n
@@ -186,7 +188,7 @@ RelHolds(r, b, c, FB, FC) ==
          [] r.kind = "tighten" ->
               \A i \in Firm(1..n) : MonoSets(FB[i], FC[i])
          [] r.kind \in {"reverse", "mirror"} ->
-              \A i \in 1..n : (i \notin open /\ (n + 1 - i) \notin TiePos(b)) => FC[i] = FB[n + 1 - i]
+              \A i \in 1..n : (i \notin open /\ (n + 1 - i) \notin TiePos(b, len)) => FC[i] = FB[n + 1 - i]
          [] r.kind = "perturb" ->
               \A i \in Firm(1..n) : i \notin Nbhd(b, r.i) => FC[i] = FB[i]
          [] OTHER -> TRUE
@@ -234,7 +236,7 @@ InvC02 ==
 InvRel ==
     (rel.kind \in RelKinds) =>
         LET eb == Expected(base, Lenient) IN
-        (eb.ok /\ exp.ok) => RelHolds(rel, base, cur, eb.flags, exp.flags)
+        (eb.ok /\ exp.ok) => RelHolds(rel, base, cur, eb.flags, exp.flags, Lenient)
 
 \* a derived call of a well-formed call is rejected only for parameter reasons
 InvRaise ==
